@@ -16,41 +16,46 @@
      EveryoneGotIt       every node other than the publisher has delivered every successfully published message.
    Which peers a router picks (mesh, gossip targets, flood or mesh publish) is never predicted. *)
 EXTENDS TraceIO, FiniteSets, Integers
-VARIABLES l, n, src, got, from, churn, bad
-vars == <<l, n, src, got, from, churn, bad>>
+VARIABLES l, n, src, got, from, churn, bad, asked
+vars == <<l, n, src, got, from, churn, bad, asked>>
 R == Rec[l]
 Range(s) == {s[i] : i \in 1..Len(s)}
 MaxMsg == 8
 MsgIds == 1..MaxMsg
 Nodes == 0..(n - 1)
-Init == l = 1 /\ n = 0 /\ src = <<>> /\ got = <<>> /\ from = <<>> /\ churn = FALSE /\ bad = {} /\ InitReg
+Init == l = 1 /\ n = 0 /\ src = <<>> /\ got = <<>> /\ from = <<>> /\ churn = FALSE /\ bad = {} /\ asked = <<>> /\ InitReg
 Reset == /\ R.e = "reset" /\ n' = R.n
          /\ src' = [m \in MsgIds |-> -1]
          /\ got' = [x \in 0..(R.n - 1) |-> {}]
          /\ from' = [x \in 0..(R.n - 1) |-> [m \in MsgIds |-> {}]]
          /\ bad' = {} /\ churn' = FALSE
+         /\ asked' = [x \in 0..(R.n - 1) |-> {}]
 (* the node acting in this step, the neighbour whose RPC it processes (or -1), the messages that RPC carries *)
 Actor == IF R.e = "dlv" THEN R.b ELSE IF R.e \in {"pub", "hb", "sub"} THEN R.n ELSE -1
 NewSrc == IF R.e = "pub" /\ R.res THEN [src EXCEPT ![R.k] = R.n] ELSE src
 NewFrom == IF R.e = "dlv" THEN [from EXCEPT ![R.b] = [m \in MsgIds |-> IF m \in Range(R.msgs) THEN @[m] \cup {R.a} ELSE @[m]]] ELSE from
 Got == IF Has(R, "got") THEN R.got ELSE <<>>
 Snd == IF R.e = "conn" THEN {} ELSE Range(R.snd)          \* <<to, msg>> queued by Actor (conn: two actors, handshake only)
-Asked(to, m) == R.e = "dlv" /\ to = R.a /\ m \in Range(R.iwant)
+(* IWANTs a node has been sent so far (the answer may be queued in the same step, or leave the node's send queue later
+   when the link is slow): asked[x] = set of <<requesting neighbour, message>> *)
+NewAsked == IF R.e = "dlv" THEN [asked EXCEPT ![R.b] = @ \cup {<<R.a, R.iwant[i]>> : i \in 1..Len(R.iwant)}] ELSE asked
+Asked(to, m) == Actor >= 0 /\ <<to, m>> \in NewAsked[Actor]
 Violations ==
      (IF \E i \in 1..Len(Got) : Got[i] \in got[Actor] \/ \E j \in 1..Len(Got) : j # i /\ Got[j] = Got[i] THEN {"delivered twice"} ELSE {})
   \cup (IF \E i \in 1..Len(Got) : NewSrc[Got[i]] = Actor THEN {"delivered to publisher"} ELSE {})
   \cup (IF \E s \in Snd : NewSrc[s[2]] = s[1] THEN {"copy to source"} ELSE {})
-  \cup (IF \E s \in Snd : s[1] \in NewFrom[Actor][s[2]] /\ ~Asked(s[1], s[2]) THEN {"copy back"} ELSE {})
+  \* (copies leaving a held-back send queue were queued at an unknown earlier time: the copy-back clause cannot be judged for them)
+  \cup (IF ~Has(R, "release") /\ \E s \in Snd : s[1] \in NewFrom[Actor][s[2]] /\ ~Asked(s[1], s[2]) THEN {"copy back"} ELSE {})
   \cup (IF R.e = "conn" /\ R.snd # <<>> THEN {"message copy on handshake"} ELSE {})
 Step == /\ R.e \in {"conn", "sub", "pub", "hb", "dlv"}
-        /\ src' = NewSrc /\ from' = NewFrom
+        /\ src' = NewSrc /\ from' = NewFrom /\ asked' = NewAsked
         /\ got' = IF Got = <<>> THEN got ELSE [got EXCEPT ![Actor] = @ \cup Range(Got)]
         /\ bad' = Violations
         /\ churn' = (churn \/ ((\E m \in MsgIds : src[m] >= 0) /\ (R.e \in {"conn", "sub"} \/ (R.e = "dlv" /\ R.gr + R.pr > 0))))
         /\ UNCHANGED n
 End == /\ R.e = "end"
        /\ bad' = IF ~R.due \/ churn \/ (R.quiet /\ \A m \in MsgIds : src[m] >= 0 => \A x \in Nodes \ {src[m]} : m \in got[x]) THEN {} ELSE {"someone missed a message"}
-       /\ UNCHANGED <<n, src, got, from, churn>>
+       /\ UNCHANGED <<n, src, got, from, churn, asked>>
 Next == l <= NRec /\ l' = l + 1 /\ (Reset \/ Step \/ End)
 Spec == Init /\ [][Next]_vars
 Progress == Mark(l)
